@@ -102,7 +102,7 @@ func (b *BatchDataCodingEncoder) Build(ctx context.Context) (contents [][]byte, 
 	var hasUcs2 bool
 	encoders := make([]*encoder, 0, len(b.dataCodings)+1)
 	eg := new(errgroup.Group)
-	for msgFmt := range b.allDataCodings() {
+	for _, msgFmt := range fanOutOrder(b.allDataCodings()) {
 		if msgFmt == datacoding.SMPP_CODING_UCS2 {
 			hasUcs2 = true
 		}
